@@ -195,6 +195,9 @@ def gen_unit(rng, nids, depth, maxlen):
             v = cur[n]
             if isinstance(v, tuple):
                 chk('sizeof(%s)' % n, v[1], ind)
+            elif v < (1 << 20) and rng.random() < 0.4:
+                # the same name inside a designator, an array bound, a bit-field width position and a case-like constant expression of an initializer
+                chk(rng.choice(['sizeof((char[]){ [%s] = 1 }) - 1', 'sizeof(char[%s + 1]) - 1', 'sizeof((struct { char c[%s + 2]; }){ { 0 } }) - 2', '(int)sizeof((char[2][%s + 1]){ [1][%s] = 1 }) / 2 - 1']).replace('%s', n), v, ind)
             else:
                 chk(n, v, ind)
         for n in rng.sample(sorted(tcur), min(len(tcur), 3)):
